@@ -144,12 +144,14 @@ def parse_rvalue(s):
     s = s.strip()
     if s.startswith(('copy ', 'move ', 'const ')):
         # maybe a cast:  OPND as TYPE (Kind)
-        m = re.match(r'^(.*) as (.+) \((\w+)\)$', s)
+        m = re.match(r'^(.*?) as (.+) \((\w+)(?:\([^()]*\))?\)$', s)
         if m and not s.startswith('const "'):
             return Rvalue('cast', [parse_operand(m.group(1)), m.group(2), m.group(3)])
         return Rvalue('use', [parse_operand(s)])
     if s.startswith('&raw '):
         mut, rest = s[5:].split(' ', 1)
+        if rest.startswith('(fake) '):
+            rest = rest[7:]                  # fake borrows of match guards: no run-time meaning
         return Rvalue('rawref', [mut, parse_place(rest)])
     if s.startswith('&mut '):
         return Rvalue('ref', ['mut', parse_place(s[5:])])
